@@ -81,8 +81,11 @@ impl<'arena, 'input: 'arena> Lexer<'arena, 'input> {
                 return SpannedToken { token, span: Range::from(start..self.pos) };
             }
             if b.is_ascii_digit() {
-                let token = self.scan_number(start);
-                return SpannedToken { token, span: Range::from(start..self.pos) };
+                // `None` means the number was invalid and has been reported; scan the next token.
+                if let Some(token) = self.scan_number(start) {
+                    return SpannedToken { token, span: Range::from(start..self.pos) };
+                }
+                continue;
             }
             if Self::is_alpha_or_underscore(b) {
                 let token = self.scan_identifier_or_keyword(start);
@@ -149,6 +152,20 @@ impl<'arena, 'input: 'arena> Lexer<'arena, 'input> {
                 self.pos += 1;
             }
         }
+    }
+
+    // Length in bytes of the character starting at `pos` (0 at the end of input)
+    //
+    // `pos` must be on a character boundary
+    #[inline]
+    fn char_len_at(&self, pos: usize) -> usize {
+        if pos >= self.len {
+            return 0;
+        }
+        // SAFETY: pos..self.len is valid UTF-8 because the original input is a &str
+        // and pos is on a character boundary
+        let rest = unsafe { str::from_utf8_unchecked(&self.src[pos..self.len]) };
+        rest.chars().next().map_or(1, char::len_utf8)
     }
 
     // Checks if a byte is a letter (A-Z, a-z) or underscore (_)
@@ -293,6 +310,8 @@ impl<'arena, 'input: 'arena> Lexer<'arena, 'input> {
                 }
 
                 let esc = self.src[pos + 1];
+                // The escaped character may be longer than one byte
+                let esc_end = pos + 1 + self.char_len_at(pos + 1);
                 match esc {
                     b'"' if quote == b'"' => buffer.push('"'),
                     b'\'' if quote == b'\'' => buffer.push('\''),
@@ -301,18 +320,20 @@ impl<'arena, 'input: 'arena> Lexer<'arena, 'input> {
                     b't' => buffer.push('\t'),
                     _ => {
                         self.emit_error(
-                            Range::from(pos..pos + 2),
+                            Range::from(pos..esc_end),
                             LexError::InvalidStringEscape,
                             vec![Label {
-                                span: Range::from(pos..pos + 2),
+                                span: Range::from(pos..esc_end),
                                 message: ArenaCow::Borrowed("I no sabi dis escape character"),
                             }],
                         );
                         // Append the invalid escape character
-                        buffer.push(esc as char);
+                        // SAFETY: pos + 1..esc_end is exactly one character of the input &str
+                        let ch = unsafe { str::from_utf8_unchecked(&self.src[pos + 1..esc_end]) };
+                        buffer.push_str(ch);
                     }
                 }
-                self.pos = pos + 2;
+                self.pos = esc_end;
             }
         }
 
@@ -368,7 +389,7 @@ impl<'arena, 'input: 'arena> Lexer<'arena, 'input> {
         }
     }
 
-    fn scan_number(&mut self, start: usize) -> Token<'arena> {
+    fn scan_number(&mut self, start: usize) -> Option<Token<'arena>> {
         let len = self.len;
 
         // Try consume the integer part first
@@ -391,8 +412,9 @@ impl<'arena, 'input: 'arena> Lexer<'arena, 'input> {
                         message: ArenaCow::Borrowed("Dis number no get digit after `.`"),
                     }],
                 );
-                self.pos += 1;
-                return self.next_token().token;
+                // Skip the offending character, never half of it or past the end
+                self.pos += self.char_len_at(self.pos);
+                return None;
             }
             while self.pos < len && self.src[self.pos].is_ascii_digit() {
                 self.pos += 1;
@@ -420,12 +442,12 @@ impl<'arena, 'input: 'arena> Lexer<'arena, 'input> {
             );
             // SAFETY: start..id_start is valid UTF-8 because we only process valid number characters
             let num = unsafe { str::from_utf8_unchecked(&self.src[start..id_start]) };
-            return Token::Number(num);
+            return Some(Token::Number(num));
         }
 
         // SAFETY: start..self.pos is valid UTF-8 because we only process valid number characters
         let num = unsafe { str::from_utf8_unchecked(&self.src[start..self.pos]) };
-        Token::Number(num)
+        Some(Token::Number(num))
     }
 
     fn scan_identifier_or_keyword(&mut self, start: usize) -> Token<'arena> {
